@@ -37,7 +37,7 @@ type trial struct {
 func TestC29(t *testing.T) {
 	r := kit.Start(t, "C29", "exploration")
 	defer r.Finish()
-	r.Rule("per router (bsc, heco, hsc, pixie, bytom; msc = Clique with a fixed signer set): honest PoSA chains over validator sets of 1..7 (..21 thorough) keys with epoch headers announcing changed sets (Parlia N/2 activation delay for bsc/bytom, immediate for the Congress family), in-turn / out-of-turn sealers, forks of lower / equal / higher total difficulty; before most honest headers one single-rule mutant of it is submitted (non-member sealer, sealer inside the recent window, wrong turn difficulty, difficulty outside {1,2}, short vanity/seal, validator bytes not a multiple of 20, non-zero mix digest, non-empty uncle hash, unknown parent, wrong number, coinbase != sealer, corrupted seal, wrong seal chain id); distinct = (router, set sizes, mutant kind, position relative to epoch) fingerprint")
+	r.Rule("per router (bsc, heco, hsc, pixie, bytom; msc = Clique with a fixed signer set): honest PoSA chains over validator sets of 1..7 (..21 thorough) keys with epoch headers announcing changed sets (Parlia N/2 activation delay for bsc/bytom, immediate for the Congress family), in-turn / out-of-turn sealers, forks of lower / equal / higher total difficulty; before most honest headers one single-rule mutant of it is submitted (non-member sealer, sealer inside the recent window, wrong turn difficulty, difficulty outside {1,2}, short vanity/seal, validator bytes not a multiple of 20, non-zero mix digest, non-empty uncle hash, unknown parent, wrong number, coinbase != sealer, corrupted seal, wrong seal chain id; plus directed recent-signer mutants at the far edge of the window in the blocks after every announcement, with sets that shrink to half / double at epochs and a trust root whose previous set is larger or smaller than the announced one); distinct = (router, set sizes, mutant kind, position relative to epoch) fingerprint")
 	r.Assume("the validator set in effect and the recent-signer window are those of Parlia (BSC, Bytom side chain: set announced at epoch block e rules blocks n with n-e > len(previous set)/2; window = len(set in effect)/2 blocks) and Congress (HECO, HSC, Pixie: set rules from e+1); the trust root's coinbase counts as the sealer of the trust root")
 	r.Assume("rules outside the property statement (gas-limit bound, gasUsed<=gasLimit, block period, validator list off the epoch height or inside the post-epoch window) are exercised and recorded per router but not asserted in either direction")
 	r.Assume("completeness is asserted only for headers that break no rule of the real chains at all (honest headers)")
@@ -62,6 +62,12 @@ func TestC29(t *testing.T) {
 			}
 		}
 		covered = append(covered, f.Name)
+		r.Require(f.Name+":recent_far_edge_mutants", maxV*perV)
+		if f.DelayedActivation {
+			// Parlia: the old set keeps ruling the first len(old)/2 blocks after the epoch header
+			r.Require(f.Name+":recent_far_edge_in_shrinking_transition", 2)
+			r.Require(f.Name+":recent_far_edge_in_growing_transition", 2)
+		}
 		for _, k := range []string{"honest_stored", "refused:sealer-not-in-validator-set", "refused:sealed-within-recent-window", "refused:difficulty-does-not-match-turn",
 			"refused:extra-too-short", "refused:validator-bytes-not-multiple-of-20", "refused:non-zero-mix-digest", "refused:non-empty-uncle-hash", "refused:coinbase-is-not-the-sealer",
 			"unknown_parent_not_stored", "epoch_headers_stored", "reorgs", "out_of_turn_stored", "in_turn_stored"} {
@@ -88,8 +94,11 @@ func (t *trial) replay(extra interface{}) interface{} {
 func (t *trial) run(v int) {
 	r, rng, f, e := t.r, t.rng, t.f, t.e
 	v0 := 1 + rng.Intn(v)
-	if rng.Intn(2) == 0 {
+	switch rng.Intn(3) {
+	case 0:
 		v0 = v
+	case 1:
+		v0 = v + 1 + rng.Intn(v) // the trust root announces a SMALLER set than the one before it
 	}
 	c, gen := es.NewPoSAChain(rng, f, sealChainID, v0, v, maxInt(v, v0), 5000000)
 	t.c, t.genesis = c, gen
@@ -130,6 +139,16 @@ func (t *trial) run(v int) {
 		if honest == nil {
 			r.Inconclusive("no eligible sealer in the honest simulator")
 			return
+		}
+		// directed: in the blocks right after an announcement (where the set in effect and the
+		// newest set may differ in size) always try the recent-signer mutants, far edge first
+		if e1, _, _ := c.M.Epochs(parent); parent.H.Number+1-e1 <= uint64(c.MaxV/2+2) {
+			if !t.mutantKind(parent, honest, "recent-far-edge") {
+				return
+			}
+			if rng.Intn(2) == 0 && !t.mutantKind(parent, honest, "recent") {
+				return
+			}
 		}
 		// a mutant of the honest header first
 		if rng.Intn(10) < 7 {
@@ -435,6 +454,11 @@ func (t *trial) monitor(kind string) bool {
 
 // mutant derives one rule-breaking variant of the honest header and submits it.
 func (t *trial) mutant(parent *es.PNode, honest *es.Hdr) bool {
+	return t.mutantKind(parent, honest, "")
+}
+
+// mutantKind derives the given kind of mutant ("" = random kind).
+func (t *trial) mutantKind(parent *es.PNode, honest *es.Hdr, forced string) bool {
 	rng, c, f := t.rng, t.c, t.f
 	m := c.M
 	set := m.InEffect(parent)
@@ -450,7 +474,18 @@ func (t *trial) mutant(parent *es.PNode, honest *es.Hdr) bool {
 	kinds := []string{"non-member", "recent", "flip-difficulty", "difficulty-range", "short-extra", "validator-bytes", "mix-digest", "uncle-hash", "unknown-parent",
 		"wrong-number", "coinbase", "corrupt-seal", "seal-chain-id", "gas-limit-jump", "gas-used", "period", "off-epoch-announcement", "window-announcement"}
 	kind := kinds[rng.Intn(len(kinds))]
+	if forced != "" {
+		kind = forced
+	}
 	parents := []*es.PNode{parent}
+	// a set-size transition: the set in effect differs in size from the most recently announced one
+	_, newest, _ := m.Epochs(parent)
+	transition := ""
+	if len(set) > len(newest) {
+		transition = "shrinking"
+	} else if len(set) < len(newest) {
+		transition = "growing"
+	}
 	switch kind {
 	case "non-member":
 		var out []es.Addr
@@ -480,9 +515,49 @@ func (t *trial) mutant(parent *es.PNode, honest *es.Hdr) bool {
 			return true
 		}
 		a := rec[rng.Intn(len(rec))]
-		h.Coinbase = [20]byte(a)
+		if !f.Clique {
+			h.Coinbase = [20]byte(a)
+		}
 		h.Difficulty = turnDiff(a)
 		reseal(a)
+		if transition != "" {
+			t.r.Count(f.Name+":recent_mutants_in_"+transition+"_transition", 1)
+		}
+	case "recent-far-edge":
+		// the sealer of the block exactly len(set)/2 blocks back: the far edge of the recent window
+		w := uint64(len(set) / 2)
+		if w == 0 {
+			return true
+		}
+		var a *es.Addr
+		for p := parent; p != nil; p = p.Parent {
+			if p.H.Number+w == h.Number {
+				x := p.Sealer
+				a = &x
+				break
+			}
+		}
+		if a == nil || c.Keys[*a] == nil {
+			return true
+		}
+		in := false
+		for _, x := range set {
+			if x == *a {
+				in = true
+			}
+		}
+		if !in {
+			return true
+		}
+		if !f.Clique {
+			h.Coinbase = [20]byte(*a)
+		}
+		h.Difficulty = turnDiff(*a)
+		reseal(*a)
+		t.r.Count(f.Name+":recent_far_edge_mutants", 1)
+		if transition != "" {
+			t.r.Count(f.Name+":recent_far_edge_in_"+transition+"_transition", 1)
+		}
 	case "flip-difficulty":
 		h.Difficulty = big.NewInt(3 - h.Difficulty.Int64())
 		reseal(sealer)
@@ -559,6 +634,6 @@ func (t *trial) mutant(parent *es.PNode, honest *es.Hdr) bool {
 		h.Extra = es.MakeExtra(rng, c.NextSet(rng, set))
 		reseal(sealer)
 	}
-	t.r.Distinct(f.Name, len(set), kind, h.Number%c.Epoch, m.F.DelayedActivation && m.InAnnounceWindow(parent))
+	t.r.Distinct(f.Name, len(set), len(newest), kind, h.Number%c.Epoch, m.F.DelayedActivation && m.InAnnounceWindow(parent))
 	return t.submit([]*es.Hdr{h}, parents, "mutant:"+kind)
 }
